@@ -41,11 +41,11 @@ def make_identity(hint):
     return ident
 
 
-def generate(hint, confkw) -> Generated:
+def generate(hint, confkw, conf=None) -> Generated:
     """Run the real factories; record an unsupported/erroring hint instead of raising."""
     g = Generated()
     g.hint, g.confkw = hint, confkw
-    conf = make_conf(confkw)
+    conf = conf if conf is not None else make_conf(confkw)
     try:
         with warnings.catch_warnings():
             warnings.simplefilter('ignore')
